@@ -22,4 +22,15 @@ while read P SHA WHAT; do
   echo "$P $SHA apply=$HOW exit=$RC $V" >> $OUT
   git -C /repo checkout -q -- . ; git -C /repo reset -q --hard
 done < /tmp/fixed_list.txt
+# hand-written re-introductions for the fixes whose reverse patch no longer applies (tools/mk_manual_mutants.py)
+for PATCH in /verif/mutants/manual-*.patch; do
+  N=$(basename $PATCH .patch); SHA=$(echo $N | cut -d- -f2)
+  P=$(grep " $SHA " /tmp/fixed_list.txt | head -1 | cut -d' ' -f1)
+  [ -z "$P" ] && P=$(grep -h "^C.. $N " /verif/mutants/RESULTS.prev 2>/dev/null | cut -d' ' -f1)
+  if ! git -C /repo apply "$PATCH" 2>/dev/null; then echo "$P $N DOES-NOT-APPLY" >> $OUT; git -C /repo reset -q --hard; continue; fi
+  RES=$(cd /verif && ./check $P quick 2>&1); RC=$?
+  V=$(echo "$RES" | grep -E '^violation ' | head -1 | cut -c1-160)
+  echo "$P $N exit=$RC $V" >> $OUT
+  git -C /repo checkout -q -- . ; git -C /repo reset -q --hard
+done
 cat $OUT
